@@ -489,7 +489,8 @@ class DeserializationMethodVisitor(
                         )
                     )
             object_constraints = constraints_validators(constraints)[dict]
-            all_alliases = set(alias_by_name.values())
+            # aggregate fields have no key of their own in the data
+            all_alliases = {field.alias for field in normal_fields}
             constructor: Optional[Constructor] = None
             if is_typed_dict(cls):
                 constructor = NoConstructor(cls)
